@@ -396,9 +396,10 @@ def yaml_setup(case):
 
 
 class YamlComp:
-    traced = ("vinegar/data_source/yaml_target.py",)
-    # call/return granularity inside the compiler, line granularity in the methods that touch the shared cache
-    line_funcs = ("get_data", "compile_data", "find_system")
+    traced = ("vinegar/data_source/yaml_target.py", "vinegar/template/jinja.py")
+    # call/return granularity inside the compiler, line granularity in the methods that touch the shared cache and in
+    # the template engine's render (the engine object and its compiled templates are shared by all calls)
+    line_funcs = ("get_data", "compile_data", "find_system", "render")
     PROBE = [["get", h] for h in ("alpha", "beta")]
 
     def __init__(self, cfg, workdir, case=None):
